@@ -257,3 +257,69 @@ example : InText ['i', ' ', 'a', 't', 'e', ' ', '9', '.']
     .ok [⟨⟨0, 1⟩, [.replaceWith ['I']], 22, 0⟩] := ⟨by unfold InText TokIn; decide, by decide⟩
 
 end Harper.C01
+
+/-! ## never hangs — UNCONDITIONALLY (w26): the thirteen struct rules of `Model/Rules2.lean`
+
+No `Tiles` / `InText` hypothesis: any environment, any source, any token vector (spans outside the text, inverted, unordered).
+Nine rules are `for` loops over tokens, chunks or windows of the document (`perTok`, `walkE`, `linkingGo`: structural
+recursions). The four `PatternLinter`s — OxfordComma (whose pattern has a `RepeatingPattern`), NoOxfordComma, WidelyAccepted,
+TheHowWhy — are `run_on_chunk` around a real tree: `matches_never_hangs_real` + `runOnChunk_never_hangs_real`
+(`Props/C01Leaves.lean`) + their `match_to_lint` never reporting a hang. -/
+namespace Harper.C01
+open Harper Harper.Chunks Harper.Rules Harper.Leaves Harper.Rules2
+open Harper.C12 (env0)
+
+/-- **SpelledNumbers, CapitalizePersonalPronouns, AvoidCurses, WordPressDotcom, LinkingVerbs, CommaFixes, MergeWords,
+AdjectiveOfA, OxfordComma, NoOxfordComma, WidelyAccepted, TheHowWhy, InflectedVerbAfterTo never hang** — every rule
+`ruleByName2` dispatches on -/
+theorem structRules_never_hang (env : Env) (src : List Char) (toks : List Tok) :
+    ∀ r ∈ [ruleSpelledNumbers, ruleCapitalizePersonalPronouns, ruleAvoidCurses, ruleWordPressDotcom, ruleLinkingVerbs,
+      ruleCommaFixes, ruleMergeWords, ruleAdjectiveOfA, ruleOxfordComma, ruleNoOxfordComma, ruleWidelyAccepted, ruleTheHowWhy,
+      ruleInflectedVerbAfterTo], r env src toks ≠ .error .outOfFuel := by
+  intro r hr
+  simp only [List.mem_cons, List.mem_nil_iff, or_false] at hr
+  rcases hr with rfl | rfl | rfl | rfl | rfl | rfl | rfl | rfl | rfl | rfl | rfl | rfl | rfl
+  · exact ruleSpelledNumbers_nf env src toks
+  · exact ruleCapitalizePersonalPronouns_nf env src toks
+  · exact ruleAvoidCurses_nf env src toks
+  · exact ruleWordPressDotcom_nf env src toks
+  · exact ruleLinkingVerbs_nf env src toks
+  · exact ruleCommaFixes_nf env src toks
+  · exact ruleMergeWords_nf env src toks
+  · exact ruleAdjectiveOfA_nf env src toks
+  · exact ruleOxfordComma_nf env src toks
+  · exact ruleNoOxfordComma_nf env src toks
+  · exact ruleWidelyAccepted_nf env src toks
+  · exact ruleTheHowWhy_nf env src toks
+  · exact ruleInflectedVerbAfterTo_nf env src toks
+
+/-- … stated on the dispatch table: whatever `ruleByName2` returns never hangs -/
+theorem ruleByName2_never_hangs (name : String) (r : Env → PieceRule) (hn : ruleByName2 name = some r) (env : Env)
+    (src : List Char) (toks : List Tok) : r env src toks ≠ .error .outOfFuel := by
+  unfold ruleByName2 at hn
+  split at hn <;> cases hn
+  · exact ruleSpelledNumbers_nf env src toks
+  · exact ruleCapitalizePersonalPronouns_nf env src toks
+  · exact ruleAvoidCurses_nf env src toks
+  · exact ruleWordPressDotcom_nf env src toks
+  · exact ruleLinkingVerbs_nf env src toks
+  · exact ruleCommaFixes_nf env src toks
+  · exact ruleMergeWords_nf env src toks
+  · exact ruleAdjectiveOfA_nf env src toks
+  · exact ruleOxfordComma_nf env src toks
+  · exact ruleNoOxfordComma_nf env src toks
+  · exact ruleWidelyAccepted_nf env src toks
+  · exact ruleTheHowWhy_nf env src toks
+  · exact ruleInflectedVerbAfterTo_nf env src toks
+
+/-- on garbage tokens: a comma whose span lies outside the text (CommaFixes: slice panic), an inverted word span
+(CapitalizePersonalPronouns: underflow), words outside the text around a space (MergeWords: slice panic); OxfordComma's
+repetition over nominals that are not in the text returns (its leaves read `Env` flags of the total `textOf`, not
+`get_content`); AvoidCurses never reads the text — no hang anywhere -/
+example : ruleCommaFixes env0 ['a'] [⟨⟨7, 8⟩, .punct .Comma⟩] = .error .sliceOOB ∧
+    ruleCapitalizePersonalPronouns env0 ['a'] [⟨⟨1, 0⟩, .word⟩] = .error .underflow ∧
+    ruleMergeWords env0 ['a'] [⟨⟨7, 9⟩, .word⟩, ⟨⟨0, 1⟩, .space 1⟩, ⟨⟨9, 7⟩, .word⟩] = .error .sliceOOB ∧
+    ruleOxfordComma env0 ['a'] [⟨⟨7, 9⟩, .word⟩, ⟨⟨9, 8⟩, .punct .Comma⟩, ⟨⟨3, 4⟩, .space 1⟩, ⟨⟨7, 9⟩, .word⟩] = .ok [] ∧
+    ruleAvoidCurses env0 ['a'] [⟨⟨9, 7⟩, .word⟩] = .ok [] := by decide
+
+end Harper.C01
